@@ -9,6 +9,8 @@ src = f"/tmp/mut/{pid}.out"
 dst = f"/verif/seeded/{pid}/m{k}"
 os.makedirs(dst, exist_ok=True)
 diff = f"{src}/m{k}.diff"
+if not os.path.exists(diff):  # scratch output already removed: re-run from the stored patch
+    diff = f"{dst}/patch.diff"
 r = subprocess.run(["git", "-C", "/repo", "apply", "--check", diff], capture_output=True, text=True)
 if r.returncode:
     sys.exit(f"patch does not apply: {r.stderr}")
@@ -25,7 +27,8 @@ try:
                       "summary": out.strip().splitlines()[-1] if out.strip() else ""}
 finally:
     subprocess.run(["git", "-C", "/repo", "checkout", "--", "."], check=True)
-shutil.copy(diff, f"{dst}/patch.diff")
+if os.path.abspath(diff) != os.path.abspath(f"{dst}/patch.diff"):
+    shutil.copy(diff, f"{dst}/patch.diff")
 for ext in ("_demo.py", ".md"):
     if os.path.exists(f"{src}/m{k}{ext}"):
         shutil.copy(f"{src}/m{k}{ext}", f"{dst}/{'demo.py' if ext == '_demo.py' else 'description.md'}")
@@ -37,7 +40,7 @@ if os.path.exists("/tmp/mut/results.txt"):
 meta = {"property": pid, "mutant": f"m{k}", "base_commit": subprocess.run(["git", "-C", "/repo", "rev-parse", "--short", "HEAD"], capture_output=True, text=True).stdout.strip(),
         "produced_by": "fresh sub-agent given only the property text and a scratch worktree",
         "what_it_needs_to_manifest": "see description.md",
-        "confirmation": conf or "pending (demo both ways + full suite)",
+        "confirmation": conf or (json.load(open(f"{dst}/meta.json")).get("confirmation") if os.path.exists(f"{dst}/meta.json") else None) or "pending (demo both ways + full suite)",
         "how_to_apply": "git -C /repo apply /verif/seeded/%s/m%s/patch.diff ; ./verif check %s ; git -C /repo checkout -- ." % (pid, k, pid),
         "checks": results}
 json.dump(meta, open(f"{dst}/meta.json", "w"), indent=1)
